@@ -96,6 +96,34 @@ Section Reloader.
     else l.
 
   Definition run (l : loop) (h : list file) : loop := fold_left poll h l.
+
+  (* `init_file` (src/config/file.rs:22-54) on the file as it is at that moment: read_config(..)?, the mtime
+     (`.ok()`: unavailable -> None), format.parse(..)?; the configuration is installed (nset = 0: no set_config yet)
+     and ConfigReloader::start is called iff the document has a refresh rate - a rate of zero is a rate.
+     None = init_file returns Err (nothing installed by it). *)
+  Definition init_file (f : file) : option (cfg * option loop) :=
+    match read f with
+    | None => None
+    | Some t =>
+        match parse t with
+        | None => None
+        | Some (c, r) =>
+            let st := {| r_mtime := stat f; r_text := t; r_active := c; r_nset := 0 |} in
+            Some (c, match r with
+                     | Some rate => Some {| l_st := st; l_rate := rate; l_running := true |}
+                     | None => None
+                     end)
+        end
+    end.
+
+  (* The intervals the refresh thread sleeps (`thread::sleep(rate)` at the head of every iteration of `run`; with
+     the reloader_sleep hook: the durations the hook is called with), the k-th one before the k-th poll; `h` are
+     the file states the successive polls find.  One more entry than polls when the thread is still running
+     after the last of them (it is asleep again). *)
+  Fixpoint sleeps (l : loop) (h : list file) : list N :=
+    if l_running l then
+      l_rate l :: match h with [] => [] | f :: r => sleeps (poll l f) r end
+    else [].
 End Reloader.
 
 Arguments r_mtime {cfg}.
